@@ -10,7 +10,10 @@ import sys
 SRC = sys.argv[1] if len(sys.argv) > 1 else '/tmp/seed_out'
 OFFSET = int(sys.argv[2]) if len(sys.argv) > 2 else 0      # round 2 stores its m1, m2 as m3, m4
 ROUND = 1 + OFFSET // 2
-SKIP = {('C19', 'm1'): 'breaks only "S(q-quantile) == target" for a quantile-derived `a` with explicit r != 1, which the statement of C19 does not promise'}
+# keyed by the stored name (m1, m2: round 1; m3, m4: round 2; m5, m6: round 3)
+SKIP = {('C19', 'm1'): 'breaks only "S(q-quantile) == target" for a quantile-derived `a` with explicit r != 1, which the statement of C19 does not promise',
+        ('C19', 'm5'): 'changes a caller of distance_to_similarity (symbolization.alignment.agg_prob drops r=max_value); the transforms of similarity.py, which C19 is about, are untouched',
+        ('C19', 'm6'): 'changes LocalConcurrences.similarity_matrix (`d <= tau`), a different function from the two transforms C19 states laws for'}
 
 
 def main():
@@ -34,8 +37,8 @@ def main():
             if not ok:
                 print('NOT CONFIRMED', p, k, conf.get('error'))
                 continue
-            if (p, k) in SKIP and OFFSET == 0:
-                print('skipped', p, k, SKIP[(p, k)])
+            if (p, 'm%d' % (int(k[1:]) + OFFSET)) in SKIP:
+                print('skipped', p, k, SKIP[(p, 'm%d' % (int(k[1:]) + OFFSET))])
                 continue
             r = subprocess.run(['bash', '/verif/tools_seed_quick.sh', d], stdout=subprocess.PIPE, stderr=subprocess.STDOUT, text=True)
             line = [l for l in r.stdout.splitlines() if 'DETECTED_BY' in l][-1]
